@@ -3,7 +3,8 @@
 (*                                                                               *)
 (* A trace is a sequence of groups of runs of smooth::minimize.  Per run:        *)
 (*   begin  options, strategy object (id, kind, fresh / shared, radius before),  *)
-(*          declared rounding scale of the residual, data fixing the minimiser   *)
+(*          declared rounding scale of the residual, residual weight w (units    *)
+(*          of f; the minimiser does not depend on it), data fixing the minimiser *)
 (*   cb     callback: iterate (all coefficients) and |f(iterate)|, exactly       *)
 (*   iter   hook event of optim.hpp after the acceptance decision:               *)
 (*          <<iter, r_n, actu_red, pred_red, rho, Delta, lambda, take_step,      *)
@@ -162,7 +163,7 @@ HBegin(s, e) ==
   IN [bad |-> bad,
       cov |-> <<"strategy|" \o e.strat \o (IF fresh THEN "|fresh" ELSE "|shared"), "mode|" \o e.mode, "shape|" \o e.shape,
                 "fam|" \o e.fam, "max_iter|" \o ToString(e.max_iter), "ftol|" \o RToStr(RFromDouble(e.ftol)),
-                "ptol|" \o RToStr(RFromDouble(e.ptol))>>
+                "ptol|" \o RToStr(RFromDouble(e.ptol)), "w|" \o RToStr(RFromDouble(e.w))>>
               \o (IF ~fresh THEN <<IF dirty THEN "reset|arrived-dirty|" \o e.strat ELSE "reset|arrived-initial|" \o e.strat>> ELSE <<>>),
       strats |-> (e.sid :> s0) @@ s.strats, run |-> run]
 
@@ -306,7 +307,12 @@ HEnd(s, e) ==
              \o Chk(DeltaOk(so.delta, X(e.delta1)), "C09.strategy", "radius-after-run|" \o so.kind, XStr(X(e.delta1)), XStr(so.delta))
              \o (IF conv /\ allFin /\ r.b.known /= "none" THEN MinimiserChk(r, e) ELSE <<>>)
       cov == <<"end|status|" \o ToString(e.status)>>
-             \o (IF conv /\ r.b.known /= "none" THEN <<"minimiser|" \o r.b.known \o "|" \o r.b.shape \o "|" \o r.b.mode>> ELSE <<>>)
+             \o (IF conv /\ r.b.known /= "none"
+                 THEN <<"minimiser|" \o r.b.known \o "|" \o r.b.shape \o "|" \o r.b.mode,
+                        \* residual weight x kind of Jacobian the solver saw (sparse only through a jacobian member)
+                        "minimiser-w|" \o RToStr(RFromDouble(r.b.w)) \o
+                          (IF r.b.shape = "sparse" /\ r.b.mode \in {"ana", "def"} THEN "|sparseJ" ELSE "|denseJ")>>
+                 ELSE <<>>)
              \o (IF r.nit = 0 THEN <<"run|no-iterations">> ELSE <<>>)
              \o (IF r.nacc < r.nit THEN <<"run|with-rejections">> ELSE <<>>)
   IN IF ~r.active \/ r.id /= e.run THEN [bad |-> Tool("end", "no such run"), cov |-> <<>>, strats |-> s.strats, run |-> r]
